@@ -23,4 +23,6 @@ MUTANTS = [
     {'id': 'c16-benign-iterator-form', 'props': ['C16'], 'expect': 'silent', 'patch': 'benign/G_benign_2.diff'},
     {'id': 'c16-iterform-parentdir-pushed', 'props': ['C16'], 'expect': 'fire', 'keys': ['path-mutation|extend'], 'patch': 'patches/c16-iterform-parentdir-pushed.diff'},
     {'id': 'c16-iterform-wrong-component-tested', 'props': ['C16'], 'expect': 'fire', 'keys': ['parentdir-refuses'], 'patch': 'patches/c16-iterform-wrong-component-tested.diff'},
+    # correct twin of the seeded change C16 #4 (OpenOptions with create + truncate and a mode)
+    {'id': 'c16-benign-openoptions-create-truncate', 'props': ['C16'], 'expect': 'silent', 'patch': 'patches/c16-openoptions-create-truncate.diff'},
 ]
